@@ -6,6 +6,8 @@ package harness
 
 import (
 	"fmt"
+	"os"
+	"os/exec"
 	"regexp"
 	"strconv"
 	"strings"
@@ -30,6 +32,8 @@ func invTranscript(invs []*Invocation) string {
 	}
 	return b.String()
 }
+
+var rePidInName = regexp.MustCompile(`-\d+\.fail`)
 
 var reCommentStamp = regexp.MustCompile(`(?m)^# \d{4}/\d\d/\d\d \d\d:\d\d:\d\d\.\d+ `)
 
@@ -58,12 +62,7 @@ func c07Units(tier string, seed int64) []Unit {
 		seeds = append(seeds, uint64(seed)*1009+uint64(i))
 	}
 	seeds = append(seeds, ^uint64(0), ^uint64(0)-1, 1<<63, 1<<63-1, 1<<32, 0xdeadbeefcafebabe)
-	progs := []func() *LazyProgram{
-		func() *LazyProgram { return progUniqueCtx("body", BPass) },
-		func() *LazyProgram { return progThreshold(100) },
-		func() *LazyProgram { return progTwoSites() },
-		func() *LazyProgram { return rejectionProgs()[0] },
-	}
+	progs := c07Progs()
 	alpha := func(string) []Beh {
 		return []Beh{BPass, BSkip, BFatalA, BPanicStr, BErrorf, BCleanupErrorfSkip, BCleanupErrorf}
 	}
@@ -166,7 +165,73 @@ func c07Units(tier string, seed int64) []Unit {
 			}
 		}
 	}
+	// the same fixed seed in two other processes: the whole run is identical across processes too
+	units = append(units, Unit{Name: "C07/cross-process-determinism", Run: func(c *Ctx) {
+		self, _ := os.Executable()
+		for pi := range progs {
+			for _, sd := range []uint64{uint64(seed)*1009 + 5, 0xdeadbeefcafebabe} {
+				want := SeedRunTranscript(pi, sd)
+				for k := 0; k < 2; k++ {
+					out, err := exec.Command(self, "seedrun", fmt.Sprint(pi), fmt.Sprint(sd)).Output()
+					c.R.Evals++
+					c.R.States++
+					c.R.Transitions++
+					if err != nil {
+						c.R.HarnessErr = "seedrun subprocess: " + err.Error()
+						return
+					}
+					c.Outcome(fmt.Sprintf("prog %d seed %d %x", pi, sd, hashStr(string(out))), true)
+					if string(out) != want {
+						c.Violate(Violation{Sig: "C07 rerun-differs what=other-process", Detail: fmt.Sprintf("program %d, -rapid.seed=%d: another process produced a different run:\n%s\nvs\n%s", pi, sd, trunc(want, 500), trunc(string(out), 500)),
+							Replay: map[string]any{"program": pi, "seed": sd}})
+					}
+				}
+			}
+		}
+	}})
 	return units
+}
+
+// c07Progs is the program list shared with the seedrun subprocess.
+func c07Progs() []func() *LazyProgram {
+	return []func() *LazyProgram{
+		func() *LazyProgram { return progUniqueCtx("body", BPass) },
+		func() *LazyProgram { return progThreshold(100) },
+		func() *LazyProgram { return progTwoSites() },
+		func() *LazyProgram { return rejectionProgs()[0] },
+	}
+}
+
+// SeedRunTranscript runs one seeded failing-and-minimizing Check and renders everything observable.
+func SeedRunTranscript(pi int, sd uint64) string {
+	prog := c07Progs()[pi]()
+	base := prog.Base
+	prog.Base = func(ctx, d string) Beh {
+		if b := base(ctx, d); b != BPass {
+			return b
+		}
+		if hashStr(d)%7 == 0 {
+			return BFatalB
+		}
+		return BPass
+	}
+	CleanFailFiles()
+	env := NewEnv(nil, prog.Base)
+	log := RunCheck(prog, env, Config{Checks: 30, Seed: sd, ShrinkMS: -1, Name: "TestC07x"})
+	t := invTranscript(env.Invs) + "\n" + tbTranscript(log.TB) + "\n" + filesTranscript(log.Files)
+	CleanFailFiles()
+	// the fail file's name carries the process id by design
+	return rePidInName.ReplaceAllString(t, "-<pid>.fail")
+}
+
+// SeedRunMain is `vcheck seedrun <prog> <seed>`.
+func SeedRunMain(a, b string) {
+	pi, _ := strconv.Atoi(a)
+	sd, _ := strconv.ParseUint(b, 10, 64)
+	d, _ := os.MkdirTemp("", "seedrun-")
+	os.Chdir(d)
+	defer os.RemoveAll(d)
+	fmt.Print(SeedRunTranscript(pi, sd))
 }
 
 func init() {
@@ -174,7 +239,7 @@ func init() {
 		ID:    "C07",
 		Level: "model_checking",
 		Rule: "E2 lazyprop over 4 base programs x checks {1,5,20} x base seeds (incl. seeds near 2^64) x every index of the first falsified test case with 0-2 skipped cases before it (deviation-bounded DFS); " +
-			"run 2 uses the seed printed by run 1 and must draw the failing case's values first and fail after 0 tests; failing runs (and 1 in 4 others) are executed twice and must agree in test cases, report and fail file. " +
+			"run 2 uses the seed printed by run 1 and must draw the failing case's values first and fail after 0 tests; failing runs (and 1 in 4 others) are executed twice and must agree in test cases, report and fail file; 8 seeded runs are repeated in two other processes each and must agree byte for byte. " +
 			"distinct = distinct (class, index of failing case, passed-before count) per unit; non-trivial = a failure was reported and reproduced.",
 		Assumptions: []string{"virtual clock (1 ms per property invocation) makes reported durations and fail-file names deterministic"},
 		Units:       c07Units,
